@@ -469,6 +469,16 @@ func c01Case(c *core.Ctx, p *dyn.PairOps, sh c01shape, r *core.Rand, caseID stri
 				}
 			}
 		}
+		// the elements behind the end of every row (its spare capacity) belong
+		// to the caller and stay as they were
+		for ci := range lens {
+			for i := max(lens[ci], 0); lens[ci] >= 0 && i < ssFull.At(ci).Len(); i++ {
+				if got, want := ssFull.At(ci).Get(i), A.FromInt(int64(7+i%5)); !got.Same(want) && !dyn.NumEq(got, want) {
+					sp = append(sp, mon.Problem{Kind: "caller-slice", Msg: fmt.Sprintf("the element %d behind the end of input row %d (length %d, in its spare capacity) changed from %v to %v", i, ci, lens[ci], want, got)})
+					break
+				}
+			}
+		}
 		c01Common(c, "WriteStriped"+pairName, caseID, d, a, w, before, got, wr, sp)
 		c.Sample("writestriped", d)
 	}
